@@ -209,6 +209,7 @@ def shard(ctx):
 
 def replay(case):
     run = stream.replay_run(case, snap_ballots=True)
-    if run.error is not None or run.timed_out:
+    if run.E is None or not run.snaps:
         return []
+    run.events = run.events[:stream.MAX_PARTIAL_EVENTS] if not run.complete else run.events
     return [(k, m) for k, m, _ in check(run)[0]]
